@@ -308,4 +308,56 @@ Proof.
   exists q, aw. auto.
 Qed.
 
+(* the divisor x^a - b as a coefficient list, and the corollary with the crate's own product *)
+Definition xa_minus_b (a : nat) (b : F) : list F := fneg O b :: repeat zero (a - 1) ++ [one].
+
+Lemma coeff_xa_minus_b a b j : 1 <= a ->
+  coeff (xa_minus_b a b) j = if j =? 0 then fneg O b else if j =? a then one else zero.
+Proof.
+  intros Ha. unfold xa_minus_b, PolyCoeff.coeff. destruct j as [|j]; [reflexivity|]. cbn [nth]. change (S j =? 0) with false. cbv iota.
+  destruct (Nat.lt_ge_cases j (a - 1)).
+  - rewrite app_nth1 by now rewrite repeat_length. rewrite nth_repeat_zero_gen.
+    destruct (Nat.eqb_spec (S j) a); [lia|reflexivity].
+  - rewrite app_nth2 by now rewrite repeat_length. rewrite repeat_length.
+    destruct (Nat.eqb_spec (S j) a).
+    + replace (j - (a - 1)) with 0 by lia. reflexivity.
+    + destruct (j - (a - 1)) as [|d] eqn:E; [lia|]. simpl. now destruct d.
+Qed.
+
+Lemma conv_xa_minus_b q a b k : 1 <= a ->
+  conv q (xa_minus_b a b) k = (if a <=? k then coeff q (k - a) else zero) -f b *f coeff q k.
+Proof.
+  intros Ha. unfold PolyCoeff.conv.
+  rewrite (gsum_ext O _ (fun i => (if i =? k then fneg O b *f coeff q k else zero)
+                                   +f (if (a <=? k) && (i =? k - a) then coeff q (k - a) else zero))).
+  2: { intros i Hi. rewrite coeff_xa_minus_b by assumption.
+       destruct (Nat.eqb_spec i k) as [Eik|Eik].
+       - rewrite Eik, Nat.sub_diag. simpl (0 =? 0).
+         destruct (Nat.leb_spec a k), (Nat.eqb_spec k (k - a)); simpl; try lia; ring.
+       - destruct (Nat.eqb_spec (k - i) 0); [lia|].
+         destruct (Nat.eqb_spec (k - i) a) as [Ea|Ea].
+         + destruct (Nat.leb_spec a k); [|lia]. destruct (Nat.eqb_spec i (k - a)) as [Ei|Ei]; [|lia].
+           simpl. rewrite Ei. ring.
+         + destruct (Nat.leb_spec a k); simpl; [|ring].
+           destruct (Nat.eqb_spec i (k - a)); [lia|ring]. }
+  rewrite (gsum_add O L).
+  rewrite (gsum_single O L (fun i => if i =? k then fneg O b *f coeff q k else zero) k)
+    by (intros i _ Hi; destruct (Nat.eqb_spec i k); [lia|reflexivity]).
+  rewrite (gsum_single O L (fun i => if (a <=? k) && (i =? k - a) then coeff q (k - a) else zero) (k - a))
+    by (intros i _ Hi; destruct (Nat.eqb_spec i (k - a)); [lia|]; now rewrite andb_false_r).
+  destruct (Nat.ltb_spec k (S k)); [|lia]. destruct (Nat.ltb_spec (k - a) (S k)); [|lia].
+  rewrite !Nat.eqb_refl, andb_true_r. destruct (a <=? k); ring.
+Qed.
+
+Corollary syn_div_mul_exact q a b p : 2 <= a -> b <> zero -> q <> [] -> mul O q (xa_minus_b a b) = Ok p ->
+  syn_div_in_place_full O p a b = Ok (q ++ repeat zero a, repeat zero a).
+Proof.
+  intros Ha Hb Hq Hm.
+  assert (Hl : length p = length q + a).
+  { rewrite (mul_length O L _ _ _ Hm). unfold xa_minus_b. simpl. rewrite app_length, repeat_length. simpl. lia. }
+  rewrite (syn_div_exact_gen p a b q Ha Hb ltac:(lia) Hq).
+  - replace (length p - a - length q) with 0 by lia. simpl. now rewrite app_nil_r.
+  - intros k. rewrite (mul_coeff _ _ _ Hm). apply conv_xa_minus_b. lia.
+Qed.
+
 End Exact.
